@@ -248,10 +248,24 @@ func (c *engineCtx) snapshot(step int, sol nextroute.Solution) {
 					w = num(a)
 				}
 			}
-			fmt.Fprintf(out, "%s cell %d %d %s tr %s ct %s a %s s %s e %s L %s D %s W %s P %d K %s\n", p, vi, i, ids[i],
+			// the per-stop (not cumulative) values of the registered expressions, SolutionStop.Value
+			vv := make([]string, 0, 1+len(c.resExprs))
+			if c.distExpr != nil {
+				vv = append(vv, num(s.Value(c.distExpr)))
+			} else {
+				vv = append(vv, "0")
+			}
+			for _, e := range c.resExprs {
+				if e == nil {
+					vv = append(vv, "0")
+				} else {
+					vv = append(vv, num(s.Value(e)))
+				}
+			}
+			fmt.Fprintf(out, "%s cell %d %d %s tr %s ct %s a %s s %s e %s L %s D %s W %s P %d K %s V %s\n", p, vi, i, ids[i],
 				num(s.TravelDurationValue()), num(s.CumulativeTravelDurationValue()),
 				num(s.ArrivalValue()), num(s.StartValue()), num(s.EndValue()),
-				dashIfEmpty(strings.Join(lv, ",")), d, w, s.Position(), slackOf(s, i))
+				dashIfEmpty(strings.Join(lv, ",")), d, w, s.Position(), slackOf(s, i), strings.Join(vv, ","))
 		}
 	}
 	fmt.Fprintf(out, "%s planned %s\n", p, collKeys(sol.PlannedPlanUnits()))
